@@ -5,7 +5,12 @@ pub mod c02;
 pub mod c03;
 pub mod c04;
 pub mod c05;
+pub mod c06;
+pub mod c07;
+pub mod c08;
 pub mod c10;
+pub mod c14;
+pub mod c16;
 
 use crate::core::{Ctx, Verdict};
 use serde_json::Value as J;
@@ -17,7 +22,12 @@ pub fn run(ctx: &Ctx) -> bool {
         "C03" => c03::run(ctx),
         "C04" => c04::run(ctx),
         "C05" => c05::run(ctx),
+        "C06" => c06::run(ctx),
+        "C07" => c07::run(ctx),
+        "C08" => c08::run(ctx),
         "C10" => c10::run(ctx),
+        "C14" => c14::run(ctx),
+        "C16" => c16::run(ctx),
         _ => return false,
     }
     true
@@ -31,7 +41,12 @@ pub fn replay(prop: &str, _kind: &str, case: &J) -> Option<Verdict> {
         "C03" => c03::replay(case),
         "C04" => c04::replay(case),
         "C05" => c05::replay(case),
+        "C06" => c06::replay(case),
+        "C07" => c07::replay(case),
+        "C08" => c08::replay(case),
         "C10" => c10::replay(case),
+        "C14" => c14::replay(case),
+        "C16" => c16::replay(case),
         _ => None,
     }
 }
